@@ -130,8 +130,37 @@ def removeByPeer (s : Inflight) (peer : Nat) : Inflight × Nat :=
      sc.hashes.length)
   | none => (s, 0)
 
-/-- `InflightBlocks::remove_by_block` -/
+/-- `InflightBlocks::remove_by_block` (after /repo commit 4f3b7cd: the slow mark goes with the request,
+whether or not the requesting peer still has a scheduler) -/
 def removeByBlock (s : Inflight) (now : Nat) (b : Blk) : Inflight × Bool :=
+  let shouldPunish := decide (s.scheds.length > s.protectNum)
+  match s.states.find? (fun e => e.1 == b) with
+  | none => (s, false)
+  | some (_, st) =>
+    let states := s.states.filter (fun e => e.1 != b)
+    let elapsed := now - st.ts
+    match s.scheds.find? (fun e => e.1 == st.peer) with
+    | none => ({ s with states := states, trace := s.trace.filter (fun t => t.1 != b) }, true)
+    | some _ =>
+      let r := if s.adjustment then s.analyzer.pushTime elapsed else (s.analyzer, Quantile.fastToNormal)
+      let adj (sc : Sched) : Sched :=
+        if s.adjustment then
+          match r.2 with
+          | .minToFast => sc.increase 2
+          | .fastToNormal => sc.increase 1
+          | .normalToUpper => if shouldPunish then sc.decrease 1 else sc
+          | .upperToMax => if shouldPunish then sc.decrease 2 else sc
+        else sc
+      ({ s with states := states,
+                scheds := updSched s.scheds st.peer (fun sc => adj (sc.removeHash b)),
+                analyzer := r.1,
+                trace := s.trace.filter (fun t => t.1 != b) }, true)
+
+/-- `InflightBlocks::remove_by_block` as it was before /repo commit 4f3b7cd (finding F23): the slow
+mark is dropped only inside `if let Some(set) = download_schedulers.get_mut(&state.peer)`, so a
+block arriving from a peer that `prune` has evicted keeps its mark. Kept for the witness theorem
+`remove_by_block_PreF23_releases_innocent_request`; not used by the driver. -/
+def removeByBlockPreF23 (s : Inflight) (now : Nat) (b : Blk) : Inflight × Bool :=
   let shouldPunish := decide (s.scheds.length > s.protectNum)
   match s.states.find? (fun e => e.1 == b) with
   | none => (s, false)
